@@ -101,6 +101,8 @@ func signature(d diffEntry) string {
 	switch {
 	case d.keyword == "additionalProperties" && d.kind == "lost":
 		return "C18|lost|additionalProperties"
+	case d.keyword == "$ref:ref-became-inline":
+		return "C18|changed|$ref:ref-became-inline"
 	case d.keyword == "type:object->untyped":
 		return "C18|changed|type:object->untyped"
 	case d.lifted:
